@@ -312,3 +312,13 @@ Theorem C13_unsorted_attribute_before_repair_refuted :
     fst (cluster iso AList data []) = [0; 0]%Z.
 Proof. exact unsorted_attribute_before_repair. Qed.
 Print Assumptions C13_unsorted_attribute_before_repair_refuted.
+
+(** ** 10. BatchCluster.batch_dicts (model [chunks]) for batch_size >= 1 (smaller sizes raise ValueError: contract cases):
+    the batches concatenate to the input, every batch has between 1 and batch_size entries, and a first batch that is
+    followed by another one has exactly batch_size entries *)
+Theorem C13_batch_dicts :
+  forall (b : nat) (l : list item), 1 <= b ->
+  concat (chunks b l) = l /\ Forall (fun c => 1 <= length c <= b) (chunks b l) /\
+  (forall c rest, chunks b l = c :: rest -> rest <> [] -> length c = b).
+Proof. exact (fun b l => batch_dicts_spec b l). Qed.
+Print Assumptions C13_batch_dicts.
